@@ -1,13 +1,14 @@
-(* Corr/C19.v -- correspondence interface for C19 (geff.validate.segmentation). *)
+(* Corr/C19.v -- correspondence interface for C19 (geff.validate.segmentation).
+   Coordinates, scale factors and axis maxima are Seg.xnum: XFin (numerator over 1024) or XNaN / XPInf / XNInf. *)
 From Geff Require Export Base Dtype Seg.
 Open Scope list_scope.
 
 Inductive input :=
 | ISegId (props : node_props) (seg_id : string)
 | IAxesMatch (axes : option (list axis)) (shape : list nat)
-| IBounds (axes : option (list axis)) (shape : list nat) (scale : option (list Z))
+| IBounds (axes : option (list axis)) (shape : list nat) (scale : option (list xnum))
 | ITimePoints (shape : list nat) (data : list Z) (tps ids : list Z) (metadata : option (option (list axis)))
-| ICoords (shape : list nat) (data : list Z) (coords : list (list Z)) (ids : list Z) (scale : option (list Z)).
+| ICoords (shape : list nat) (data : list Z) (coords : list (list xnum)) (ids : list Z) (scale : option (list xnum)).
 
 (* the (bool, errors) pair, or the exception class *)
 Inductive obs := ORes (r : res result).
